@@ -317,8 +317,17 @@ def main():
         "update to an already present rule: the property is silent; the (repaired) code refuses, the spec only demands "
         "duplicate-freeness and all-or-nothing there",
     ]
-    chk.trusted = ["hand-written model coq/theories/Policy.v + Mgmt.v tied by the differential history correspondence"]
-    chk.build(oracle_name="Mgmt")
+    chk.trusted = ["hand-written model coq/theories/Policy.v + Mgmt.v tied by the differential history correspondence",
+                   "translator translators/policy.py (Python ast of casbin/model/policy.py -> coq/gen/PolicyGen.v, purely syntactic, "
+                   "fail-closed, regenerated on this run) and the interpreter of coq/theories/PolLang.v as the meaning of the accepted "
+                   "Python subset (list membership/index/remove by value, a for statement iterates a snapshot and is refused when its "
+                   "body may change the iterated list, short-circuit and/or/all, exceptions keep earlier changes, writes to policy_map "
+                   "dropped); PolicyTie.v proves that the regenerated has_policy / add_policy / add_policies (no priority column) / "
+                   "remove_policy / remove_policies / update_policy / remove_filtered_policy compute Policy.v's functions for every "
+                   "rule list and argument; update_policies, get_filtered_policy, the *_returns_effects / *_with_effected forms, "
+                   "get_values_for_field_in_policy and the priority insertion of add_policy are translated but tied by the "
+                   "differential correspondence only"]
+    chk.build(translators=["policy"], oracle_name="Mgmt")
     if chk.replay_file:
         return mgmt.replay_case(chk, spec_all)
     if chk.tier == "thorough":
